@@ -241,7 +241,7 @@ def command_of(event, ip):
 
 
 STAT = dict(events={}, pk_by_kind={}, families_run=set(), layouts_run=set(), tone_events=0, tone_in_domain=0, min_tone_margin_cdB=99999,
-            min_proj_margin_cdB=99999, proj_in_domain=0, discriminating=0, muted_channels=0, dup_channels=0, lost=0, encode_failed=0,
+            min_proj_margin_cdB=99999, proj_in_domain=0, max_tone_level_error_cdB=0, max_proj_level_error_cdB=0, discriminating=0, muted_channels=0, dup_channels=0, lost=0, encode_failed=0,
             hand_refused=0, max_streams=0, max_channels=0, formats=3)
 
 
@@ -286,11 +286,13 @@ def scan(ctx, path):
                 if tone_domain(e):
                     STAT["tone_in_domain"] += 1
                     STAT["min_tone_margin_cdB"] = min([STAT["min_tone_margin_cdB"]] + e["sm"])
+                    STAT["max_tone_level_error_cdB"] = max([STAT["max_tone_level_error_cdB"]] + [abs(v) for v in e["sv"]])
             elif k == "pt":
                 STAT["families_run"].add((3, e["ch"]))
                 if proj_tone_domain(e):
                     STAT["proj_in_domain"] += 1
                     STAT["min_proj_margin_cdB"] = min([STAT["min_proj_margin_cdB"]] + [v for row in e["pg"] for v in row])
+                    STAT["max_proj_level_error_cdB"] = max([STAT["max_proj_level_error_cdB"]] + [abs(v + e["g"] * 100 // 256) for row in e["pv"] for v in row])
             elif k == "ls":
                 STAT["lost"] += 1
             elif k == "ef":
@@ -300,11 +302,12 @@ def scan(ctx, path):
 
 def tone_domain(e):
     """MSTrace!ToneDomain, to select the measurements reported in the evidence (calibration figures; no judgement)"""
-    return e["brc"] >= 64000 and e["ms"] >= 200 and e["maxb"] >= 2 * (e["S"] + e["C"]) * ((e["brc"] // 8) * e["fr"] // e["fs"])
+    return (e["brc"] >= 64000 and e["ms"] >= 200 and e["maxb"] >= 2 * (e["S"] + e["C"]) * ((e["brc"] // 8) * e["fr"] // e["fs"])
+            and e["fr"] * 100 >= e["fs"] and e["fr"] * 50 <= e["fs"] * 3 and e["loud"] == 0)
 
 
 def proj_tone_domain(e):
-    return tone_domain(e) and e["brc"] >= 96000 and e["minc"] >= 16 and e["fr"] * 100 >= e["fs"] and e["fr"] * 50 <= e["fs"] * 3
+    return tone_domain(e) and e["brc"] >= 96000 and e["minc"] >= 16
 
 
 def known_match(event):
@@ -449,9 +452,10 @@ def run(ctx):
                        "the header bytes logged for each sub-packet reach 4 bytes past the payload offset the library's parser reported (a header the "
                        "specification parses to the same offset has then only read real bytes)",
                        "the test-tone clauses are asserted only well inside 'enough bits for a steady tone' (R2): which input channel feeds which stream "
-                       "at >= 64 kb/s per coded channel; projection round trip at >= 96 kb/s, every stream coded by the transform layer, packets of "
-                       "10-60 ms; both with >= 200 ms of signal, a buffer of twice the bitrate's bytes, and a 6 dB margin between the strongest and "
-                       "the second strongest tone (calibrated: worst observed 35.9 dB / 19.4 dB, R3)",
+                       "at >= 64 kb/s per coded channel; projection round trip at >= 96 kb/s with every stream coded by the transform layer; both for "
+                       "packets of 10-60 ms, >= 200 ms of signal, a buffer of twice the bitrate's bytes, and with a 6 dB margin between the strongest "
+                       "and the second strongest tone and 7 dB of slack on the tone's level (calibrated: worst margin 35.7 dB / 19.4 dB inside the domain, "
+                       "17.8 dB for 80 ms packets; worst level error 0.41 dB / 0.55 dB, R3)",
                        "matrix identity tolerance 1/500 of the diagonal (measured worst deviation is recorded under matrix_deviation_ppm)",
                        "sample rates and the three sample formats are covered by sampling; FEC decoding and DRED are not exercised"]
     if ctx.replay:
@@ -579,11 +583,12 @@ def finish_notes(ctx):
     s["families_run"] = {str(f): sorted(ch for ff, ch in fams if ff == f) for f in sorted(set(f for f, ch in fams))}
     s["distinct_layouts_run"] = len(s.pop("layouts_run"))
     ctx.notes["observed"] = s
-    ctx.notes["thresholds"] = dict(ToneMarginMin_cdB=600, ToneRateMin_bps_per_channel=64000, ProjRateMin_bps_per_channel=96000, matrix_TolDiv=500,
+    ctx.notes["thresholds"] = dict(ToneMarginMin_cdB=600, ToneLevelSlack_cdB=700, ToneRateMin_bps_per_channel=64000, ProjRateMin_bps_per_channel=96000, matrix_TolDiv=500,
                                    calibration=("stream-side tones: 941 surround runs (families 0/1/2/255, all rates, 10-120 ms, all applications): worst margin "
                                                 "35.9 dB at >= 64 kb/s per channel (15.5 dB at 48 kb/s); projection outputs: 1100 runs over the ten channel "
                                                 "counts at >= 96 kb/s, transform layer only, 10-60 ms: worst 19.4 dB (2 dB when a stream is coded by the "
-                                                "hybrid layer, which is why those runs are outside the domain); threshold 6 dB"))
+                                                "hybrid layer, which is why those runs are outside the domain); threshold 6 dB. Levels: the decoded tone is within 0.41 dB "
+                                                "(projection: 0.55 dB of input level minus stated gain) over 818 / 300 runs; slack 7 dB"))
 
 
 def replay(ctx):
